@@ -7,8 +7,12 @@
  * of exactly the advertised size, so ASan reports any access past it.  After every tio call the
  * internal cursor/length/status and the unread bytes of the staging buffer are dumped, not only the
  * returned characters.  A watchdog turns a call that never returns into a "HANG" line. */
+#define _GNU_SOURCE
 #include "tio.c"
 #include <hawk-utl.h>
+#include <hawk-std.h>
+#include <errno.h>
+#include <sys/syscall.h>
 #include <stdio.h>
 #include <stdlib.h>
 #include <string.h>
@@ -71,6 +75,65 @@ static hawk_ooi_t in_handler (hawk_tio_t* tio, hawk_tio_cmd_t cmd, void* buf, ha
 	return (hawk_ooi_t)n;
 }
 
+/* the adversarial writer: reply per call = accept min(k, offered) bytes (k > 0), accept nothing (0), fail (f);
+ * an exhausted script accepts everything.  what it ACCEPTED is recorded in `sink`, call by call. */
+#define MAXSCR 4096
+static struct { long k[MAXSCR]; size_t n, i; long calls; } wscr; /* k: >0 accept, 0 zero, -1 fail */
+static int parse_script (const char* s)
+{
+	wscr.n = wscr.i = 0; wscr.calls = 0;
+	if (!strcmp(s, "-")) return 0;
+	for (;;)
+	{
+		const char* q = strchr(s, ','); size_t n = q ? (size_t)(q - s) : strlen(s);
+		if (wscr.n >= MAXSCR || n == 0) return -1;
+		if (n == 1 && s[0] == 'f') wscr.k[wscr.n++] = -1;
+		else { char* e; long v = strtol(s, &e, 10); if (e != s + n || v < 0) return -1; wscr.k[wscr.n++] = v; }
+		if (!q) break; s = q + 1;
+	}
+	return 0;
+}
+static void record_slice (const void* buf, size_t n)
+{
+	if (sink.n < MAXCH) { sink.ptr[sink.n] = malloc(n); memcpy(sink.ptr[sink.n], buf, n); sink.len[sink.n] = n; sink.n++; }
+}
+/* one reply of the script for `size` offered bytes at buf: returns the count accepted, 0, or -1 */
+static long scripted_reply (const void* buf, size_t size)
+{
+	volatile unsigned char chk = 0; size_t i; long k;
+	for (i = 0; i < size; i++) chk ^= ((const unsigned char*)buf)[i]; /* touch everything offered: ASan sees an over-long offer */
+	wscr.calls++;
+	if (wscr.i >= wscr.n) { record_slice(buf, size); return (long)size; }
+	k = wscr.k[wscr.i++];
+	if (k < 0) return -1;
+	if (k == 0) return 0;
+	if ((size_t)k > size) k = (long)size;
+	record_slice(buf, (size_t)k);
+	return k;
+}
+static hawk_ooi_t scripted_out_handler (hawk_tio_t* tio, hawk_tio_cmd_t cmd, void* buf, hawk_oow_t size)
+{
+	long r;
+	if (cmd != HAWK_TIO_DATA) return 0;
+	r = scripted_reply(buf, size);
+	if (r < 0) hawk_gem_seterrnum(tio->gem, HAWK_NULL, HAWK_EIOERR);
+	return (hawk_ooi_t)r;
+}
+
+/* write(2) interposed for descriptor 1 while a hawk program runs in this process (`prt`): the std console handler of the
+ * runtime ends up here through sio -> tio -> fio.  nothing is really written; what was accepted is recorded. */
+static int w_armed = 0;
+ssize_t write (int fd, const void* buf, size_t len)
+{
+	if (w_armed && fd == 1)
+	{
+		long r = scripted_reply(buf, len);
+		if (r < 0) { errno = EIO; return -1; }
+		return (ssize_t)r;
+	}
+	return syscall(SYS_write, fd, buf, len);
+}
+
 static hawk_ooi_t out_handler (hawk_tio_t* tio, hawk_tio_cmd_t cmd, void* buf, hawk_oow_t size)
 {
 	if (cmd != HAWK_TIO_DATA) return 0;
@@ -96,7 +159,7 @@ static void free_sink (void) { size_t i; for (i = 0; i < sink.n; i++) free(sink.
 
 static const char* errname (void)
 {
-	switch (gem.errnum) { case HAWK_EECERR: return "EECERR"; case HAWK_EBUFFULL: return "EBUFFULL"; case HAWK_EINVAL: return "EINVAL"; default: return "E?"; }
+	switch (gem.errnum) { case HAWK_EECERR: return "EECERR"; case HAWK_EBUFFULL: return "EBUFFULL"; case HAWK_EINVAL: return "EINVAL"; case HAWK_EIOERR: return "EIOERR"; default: return "E?"; }
 }
 
 static void dump_in (hawk_tio_t* tio)
@@ -242,6 +305,77 @@ int main (int argc, char** argv)
 			printf(" rest="); put_bytes((unsigned char*)tio->out.buf.ptr, tio->outbuf_len); printf("\n");
 			tio->outbuf_len = 0; /* nothing more to compare */
 			hawk_tio_close(tio); free(ob); free_sink();
+		}
+		else if (nw == 5 && !strcmp(w[0], "tiox"))
+		{
+			/* write-side calls against the scripted writer: u:<chars> / b:<bytes> / F */
+			size_t capa = strtoul(w[1], NULL, 10); int first = 1; char* sp; size_t i;
+			hawk_tio_t* tio; hawk_bch_t* ob;
+			if (capa < HAWK_TIO_MINOUTBUFCAPA || parse_script(w[3]) < 0) { printf("bad-op\n"); continue; }
+			tio = hawk_tio_open(&gem, 0, tio_flags(w[2])); ob = malloc(capa);
+			hawk_tio_attachout(tio, scripted_out_handler, ob, capa);
+			sp = w[4];
+			if (strcmp(sp, ".")) for (;;)
+			{
+				char* q = strchr(sp, '/'); size_t sl = q ? (size_t)(q - sp) : strlen(sp), n = 0; hawk_ooi_t r; int isflush = 0;
+				gem.errnum = HAWK_ENOERR;
+				if (sl == 1 && sp[0] == 'F') { r = hawk_tio_flush(tio); isflush = 1; }
+				else if (sl >= 2 && sp[0] == 'b' && sp[1] == ':') { unsigned char* b = parse_bytes(sp + 2, sl - 2, &n); if (!b) { printf("bad-op"); break; } r = hawk_tio_writebchars(tio, (hawk_bch_t*)b, n); free(b); }
+				else if (sl >= 2 && sp[0] == 'u' && sp[1] == ':') { hawk_uch_t* u = parse_chars(sp + 2, sl - 2, &n); if (!u) { printf("bad-op"); break; } r = hawk_tio_writeuchars(tio, u, n); free(u); }
+				else { printf("bad-op"); break; }
+				if (!first) putchar(' '); first = 0;
+				if (r <= -1) printf("%s", errname()); else if (isflush) printf("n%ld", (long)r); else if ((size_t)r == n) printf("ok"); else printf("short%ld", (long)r);
+				printf("|%lu|", (unsigned long)tio->outbuf_len);
+				put_bytes((unsigned char*)tio->out.buf.ptr, tio->outbuf_len <= capa ? tio->outbuf_len : capa);
+				printf("|%ld", wscr.calls);
+				if (!q) break; sp = q + 1;
+			}
+			printf(" sink=");
+			if (!sink.n) putchar('.');
+			for (i = 0; i < sink.n; i++) { if (i) putchar('/'); put_bytes(sink.ptr[i], sink.len[i]); }
+			printf("\n");
+			tio->outbuf_len = 0; /* nothing more to compare */
+			hawk_tio_close(tio); free(ob); free_sink();
+		}
+		else if (nw == 3 && !strcmp(w[0], "prt"))
+		{
+			/* a hawk program `BEGIN { if ((print T1) <= -1) exit 101; if ((print T2) <= -1) exit 102; ... }` run on the standard
+			 * runtime in this process with write(2) on descriptor 1 answered by the script.  texts are hex UTF-8 without quotes,
+			 * backslashes or newlines.  prints: exit value (0 = all prints reported success, 100+i = print i reported failure,
+			 * -1 = run error), number of write(2) calls, the slices accepted. */
+			static char prog[1 << 20]; size_t pl = 0, i, k = 0; char* sp = w[2]; long ec = 0; int bad = 0;
+			hawk_t* hawk; hawk_rtx_t* rtx = HAWK_NULL; hawk_val_t* retv; hawk_parsestd_t psin[2];
+			if (parse_script(w[1]) < 0) { printf("bad-op\n"); continue; }
+			pl += snprintf(prog + pl, sizeof(prog) - pl, "BEGIN { ");
+			for (;;)
+			{
+				char* q = strchr(sp, '/'); size_t sl = q ? (size_t)(q - sp) : strlen(sp), n; unsigned char* b = parse_bytes(sp, sl, &n);
+				if (!b || pl + n + 64 >= sizeof(prog)) { bad = 1; free(b); break; }
+				pl += snprintf(prog + pl, sizeof(prog) - pl, "if ((print \"");
+				memcpy(prog + pl, b, n); pl += n; free(b);
+				pl += snprintf(prog + pl, sizeof(prog) - pl, "\") <= -1) exit %lu; ", (unsigned long)(101 + k)); k++;
+				if (!q) break; sp = q + 1;
+			}
+			pl += snprintf(prog + pl, sizeof(prog) - pl, "}");
+			if (bad) { printf("bad-op\n"); continue; }
+			fflush(stdout);
+			hawk = hawk_openstd(0, HAWK_NULL);
+			memset(&psin, 0, sizeof(psin));
+			psin[0].type = HAWK_PARSESTD_BCS; psin[0].u.bcs.ptr = prog; psin[0].u.bcs.len = pl; psin[1].type = HAWK_PARSESTD_NULL;
+			if (!hawk || hawk_parsestd(hawk, psin, HAWK_NULL) <= -1 || !(rtx = hawk_rtx_openstd(hawk, 0, HAWK_T("prt"), HAWK_NULL, HAWK_NULL, HAWK_NULL)))
+			{ printf("setup-failed\n"); if (hawk) hawk_close(hawk); continue; }
+			w_armed = 1;
+			retv = hawk_rtx_loop(rtx);
+			if (retv) { hawk_int_t v = 0; if (hawk_rtx_valtoint(rtx, retv, &v) >= 0) ec = (long)v; hawk_rtx_refdownval(rtx, retv); }
+			else ec = -1;
+			hawk_rtx_close(rtx);
+			hawk_close(hawk);
+			w_armed = 0;
+			printf("ec=%ld calls=%ld sink=", ec, wscr.calls);
+			if (!sink.n) putchar('.');
+			for (i = 0; i < sink.n; i++) { if (i) putchar('/'); put_bytes(sink.ptr[i], sink.len[i]); }
+			printf("\n");
+			free_sink();
 		}
 		else printf("bad-op\n");
 		fflush(stdout); /* keep everything printed so far if a sanitizer aborts the next op */
